@@ -102,6 +102,11 @@ Fixpoint dec_ops (fuel : nat) (w : list Z) : option (list zop) :=
             end
           else if code =? 11 then one OMerge w1
           else if code =? 12 then one OMeld w1
+          (* 16 / 17: h0.Merge(h0) / h0.Meld(h0) in the implementation; the generator places them only where
+             h1 holds what the code finds in the argument (a twin of h0 / an empty heap), so that the model's
+             Merge / Meld with h1 is what the code computes *)
+          else if code =? 16 then one OMerge w1
+          else if code =? 17 then one OMeld w1
           else if code =? 13 then one OSwap w1
           else if code =? 14 then
             match rd_zs w1 with
